@@ -366,6 +366,14 @@ def check_fresh_state(rep: Report, prog: Program) -> None:
                 rep.fail("R1.5", f"class-level-counter|{ci.qual}.{f}", f"{ci.qual} declares `{f}` at class level (shared between calls)", where=f"{ci.module.relpath}:{ci.node.lineno}", function=ci.qual)
     init = prog.func("redress.policy.state:_RetryState.__init__")
     inits = {t.attr: ast.unparse(a.value) for a in prog._own_nodes(init.node) if isinstance(a, (ast.Assign, ast.AnnAssign)) for t in ([a.target] if isinstance(a, ast.AnnAssign) else a.targets) if isinstance(t, ast.Attribute) and t.attr in COUNTER_ATTRS}
+    # a zero-argument factory of the same module that only returns a fresh empty counter stands for what it returns
+    pc = next((a.value for a in prog._own_nodes(init.node) if isinstance(a, (ast.Assign, ast.AnnAssign)) for t in ([a.target] if isinstance(a, ast.AnnAssign) else a.targets) if isinstance(t, ast.Attribute) and t.attr == "per_class_counts"), None)
+    if isinstance(pc, ast.Call) and isinstance(pc.func, ast.Name) and not pc.args and not pc.keywords:
+        k0, fac = prog.lookup_name(pc.func.id, init, init.module)
+        if k0 == "func" and fac is not None and not fac.param_names():
+            body0 = [b for b in fac.node.body if not (isinstance(b, ast.Expr) and isinstance(b.value, ast.Constant))]
+            if len(body0) == 1 and isinstance(body0[0], ast.Return) and body0[0].value is not None:
+                inits["per_class_counts"] = ast.unparse(body0[0].value)
     rep.instance("R1.5", "init-values", {"initialisers": inits})
     if inits.get("unknown_attempts") == "0" and inits.get("per_class_counts", "").replace("collections.", "") in ("defaultdict(int)", "Counter()"):
         rep.ok("R1.5")
